@@ -20,6 +20,17 @@ def step (aip2 : Bool) (pairs : List (String × String)) (op : String) : Option 
   | ["forge", _, a, b] =>
     let o := if connected pairs a b then "sent" else "noconn"
     some (pairs, o, o)
+  | ["forge2", _, a, b] =>
+    -- the peer's own document with the service block replaced: the store keeps what it has (Conn.C10_no_repoint)
+    let o := if connected pairs a b then "sent" else "noconn"
+    some (pairs, o, o)
+  | ["slow", _] => some (pairs, "ok", "ok")
+  | ["fast", _] => some (pairs, "ok", "ok")
+  | ["authfrom", c, a, b] =>
+    -- an authenticated envelope is attributed by its sender key alone (Conn.C10_attribution_authenticated): whatever
+    -- its plaintext says, it is not B's
+    if !connected pairs a b || !connected pairs c a then some (pairs, "noconn", "noconn")
+    else some (pairs, "not-as-" ++ b, "not-as-" ++ b)
   | ["anonfrom", _, a, b] =>
     -- as written: an envelope without sender key is attributed by the plaintext `from` (Conn.attributeMsg); the contract
     -- (Conn.attributeSpec) attributes it to nobody
